@@ -15,7 +15,7 @@ git pull -q --no-edit "$W" "$ID" || {
   for f in $(git status --porcelain | grep -E "^(UU|AA|DU|UD|AU|UA) " | cut -c4-); do
     case "$f" in
       evidence/*|MANIFEST.json) git checkout --theirs -- "$f"; git add "$f";;
-      lean/Driver/Main.lean) git rm -q --cached "$f" 2>/dev/null || git rm -q "$f";;
+      lean/Driver/Main.lean|.work-setup.log) git rm -q --cached "$f" 2>/dev/null || git rm -q "$f";;
       *) echo "CONFLICT in $f"; exit 1;;
     esac
   done
